@@ -377,5 +377,23 @@ def execute(ctx, case):
     buffers.BufferManager.buffers = {}
 
 
+def own_aggregate_cases():
+  """a datapoint named like one of the aggregates it feeds, matched by further rules before and after that one (the
+  pass-through exception of the property looks at all the aggregates a name feeds, not at one rule)"""
+  own = {'input': '*.*', 'output': 'agg0.all', 'method': 'sum', 'frequency': 10, 'fields': []}
+  other = {'input': 'agg0.*', 'output': 'agg1.other', 'method': 'count', 'frequency': 10, 'fields': []}
+  third = {'input': '<<rest>>', 'output': 'agg2.every', 'method': 'max', 'frequency': 5, 'fields': ['rest']}
+  out = []
+  for rules in ([own, other], [other, own], [other, own, third], [own], [third, own, other]):
+    for forward_all in (True, False):
+      for cache in ('off', 'lru'):
+        out.append({'rules': rules, 'styles': [0] * len(rules), 'max_intervals': 2, 'wbf': None, 'forward_all': forward_all,
+                    'cache': cache, 'steps': [['recv', 'agg0.all', 'now', 3], ['recv', 'agg0.b', 'now', 4], ['advance', 'freq'],
+                                              ['recv', 'agg0.all', 'now', 5], ['advance', '3freq']]})
+  return out
+
+
 def run(ctx):
+  for case in own_aggregate_cases():
+    execute(ctx, case)
   run_given(ctx, cases(), execute, ctx.scale(1000, 5000), salt=1)
